@@ -410,18 +410,23 @@ class H3(Case):
         else:
             c, s = G.phase("a", w0 * tau)
         eps = 2.0 ** -52 if mode == "real" else S(Fr(2) ** -52)     # exact (generic float lifting would give 0)
+        # the caller's tolerances: symbolic epsrel in (0, 1), non-default subdivision limits
+        tol = inp.real("epsrel", lo=Fr(1, 10 ** 9), hi=Fr(1, 2))
+        lim = 137
+        tkw = {"epsrel": tol, "subdiv_limit": lim}
         with G:
             corr = bc.CustomSD(lambda w: jv, wc, self.ct, T)
             J = corr.spectral_density(w0)
             if self.kind == "correlation":
-                out = corr.correlation(tau, matsubara=mats) if not zero else corr.correlation(tau)
+                out = corr.correlation(tau, matsubara=mats, **tkw) if not zero else corr.correlation(tau, **tkw)
             else:
-                out = corr.eta_function(tau, matsubara=mats) if not zero else corr.eta_function(tau)
+                out = corr.eta_function(tau, matsubara=mats, **tkw) if not zero else corr.eta_function(tau, **tkw)
             calls = list(pq.calls)
             del pq.calls[:]
             if not mats:
-                out_neg = corr.correlation(-tau) if self.kind == "correlation" else corr.eta_function(-tau)
+                out_neg = corr.correlation(-tau, **tkw) if self.kind == "correlation" else corr.eta_function(-tau, **tkw)
                 calls_neg = list(pq.calls)
+                del pq.calls[:]
             guard = True if zero else bool(b > eps)        # consistent with the branch taken by the code
         # documented kernels -------------------------------------------------
         lemmas = []
@@ -455,6 +460,14 @@ class H3(Case):
             obs.append(Ob.holds("every np.exp argument is an integer combination of the documented exponents", True, key="exp_argument"))
         if len(calls) != 2 * nr:
             return obs
+        # every quadrature (real and imaginary part, every range) receives the caller's epsrel and subdiv_limit
+        for nm, cl, L in (("", calls, lim), ("f(-tau): ", calls_neg if not mats else [], lim)):
+            for i, c_ in enumerate(cl):
+                part = "re" if i % 2 == 0 else "im"
+                obs.append(Ob.eq("%squad call %d (%s): epsrel is the caller's epsrel" % (nm, i, part),
+                                 c_["epsrel"] if c_["epsrel"] is not None else -one, tol, key="tolerances_forwarded"))
+                obs.append(Ob.holds("%squad call %d (%s): limit is the caller's subdiv_limit" % (nm, i, part),
+                                    c_["limit"] is not None and c_["limit"] == L, key="tolerances_forwarded"))
         # frequency ranges tile [0, inf) (hard cut-off: [0, wc], J vanishes beyond)
         obs.append(Ob.eq("first range starts at 0", calls[0]["a"], 0 * wc))
         obs.append(Ob.eq("first range ends at the cutoff", calls[0]["b"], wc))
@@ -504,6 +517,61 @@ class H3(Case):
                 neg = calls_neg[2 * r]["v"] + 1j * calls_neg[2 * r + 1]["v"]
                 obs.append(Ob.eq("range %d: kernel(-tau) == conj kernel(tau)" % r, neg, _conj(inp, pos)))
             obs.append(Ob.eq("f(-tau) == conj f(tau)", out_neg, _conj(inp, out)))
+        return obs
+
+
+class H3tol(Case):
+    """the documented tolerances reach every quadrature: correlation(), eta_function() and the three shapes of
+    correlation_2d_integral() called with a symbolic epsrel in (0,1) and non-default subdiv_limit values;
+    every recorded integrate.quad call (real and imaginary part, every frequency range) must carry exactly them."""
+    functions = ("bath_correlations.CustomSD.correlation", "bath_correlations.CustomSD.eta_function",
+                 "bath_correlations.CustomSD.correlation_2d_integral", "bath_correlations._complex_integral")
+    stubs = ("integrate.quad -> evaluation functional at one frequency, records epsrel/limit of every call", "np.exp -> uninterpreted")
+    max_paths = 256
+
+    def __init__(self, cls, ct, thermal):
+        self.cls, self.ct, self.thermal = cls, ct, thermal
+        self.id = "H3/tolerances_%s_%s_%s" % (cls, ct, "thermal" if thermal else "zeroT")
+        self.bounds = {"class": cls, "cutoff_type": ct, "thermal": thermal, "epsrel": "symbolic in (0,1)", "subdiv_limit": [137, 733, 29]}
+        self.late = bs.Late()
+        self.env = bs.bc_env(integrate=self.late)
+        self.real_env = {bs.BC + ".integrate": self.late}
+
+    def run(self, inp):
+        mode = inp.mode
+        w0 = inp.real("w0", lo=Fr(1, 2), hi=2)
+        wc = inp.real("wc", lo=3, hi=4)
+        al = inp.real("al", lo=Fr(1, 4), hi=1)
+        T = inp.real("T", lo=Fr(1, 2), hi=2) if self.thermal else 0.0
+        tau = inp.real("tau", lo=Fr(1, 2), hi=1)
+        d = inp.real("d", lo=Fr(1, 8), hi=Fr(1, 4))
+        tol = inp.real("epsrel", lo=Fr(1, 10 ** 9), hi=Fr(1, 2))
+        pq = bs.PointQuad(w0)
+        self.late.set(pq)
+        if self.cls == "pl":
+            corr = bc.PowerLawSD(al, 1, wc if mode == "real" else bs.sp(wc), self.ct, T)
+        else:
+            corr = bc.CustomSD(lambda w: al * w, wc, self.ct, T)
+        nr = 1 if self.ct == "hard" else 2
+        plan = [("correlation", lambda L: corr.correlation(tau, epsrel=tol, subdiv_limit=L), 137, 1),
+                ("eta_function", lambda L: corr.eta_function(tau, epsrel=tol, subdiv_limit=L), 733, 1),
+                ("2d upper-triangle", lambda L: corr.correlation_2d_integral(d, 0.0, shape="upper-triangle", epsrel=tol, subdiv_limit=L), 29, 2),
+                ("2d square", lambda L: corr.correlation_2d_integral(d, tau, shape="square", epsrel=tol, subdiv_limit=L), 137, 3),
+                ("2d rectangle", lambda L: corr.correlation_2d_integral(d, tau, time_2=tau + 2 * d, shape="rectangle", epsrel=tol, subdiv_limit=L),
+                 733, 4)]
+        obs = []
+        for name, fn, L, neta in plan:
+            del pq.calls[:]
+            fn(L)
+            cl = list(pq.calls)
+            obs.append(Ob.holds("%s: number of quadratures (eta evaluations x ranges x re/im)" % name, len(cl) == neta * nr * 2,
+                                key="tolerances_forwarded"))
+            for i, c_ in enumerate(cl):
+                part = "re" if i % 2 == 0 else "im"
+                obs.append(Ob.eq("%s: quad call %d (%s) gets the caller's epsrel" % (name, i, part),
+                                 c_["epsrel"] if c_["epsrel"] is not None else -inp.one(), tol, key="tolerances_forwarded"))
+                obs.append(Ob.holds("%s: quad call %d (%s) gets the caller's subdiv_limit" % (name, i, part),
+                                    c_["limit"] is not None and c_["limit"] == L, key="tolerances_forwarded"))
         return obs
 
 
@@ -716,6 +784,9 @@ def cases(tier):
         cs.append(H3(kind, "matsubara", 1, "exponential", hot=True))
         cs.append(H3(kind, "thermal", 2, "exponential", cold=True))
         cs.append(H3(kind, "matsubara", 1, "exponential", cold=True))
+    cs += [H3tol("sd", "exponential", True), H3tol("pl", "hard", False)]
+    if th:
+        cs += [H3tol("pl", "gaussian", True), H3tol("sd", "hard", True), H3tol("pl", "exponential", False)]
     if th:
         for kind in kinds:
             for regime in ("zeroT", "thermal", "matsubara"):
